@@ -115,11 +115,16 @@ def measure_screen(ctx):
     ax = int(rng.integers(0, 3))
     a1, a2 = [k for k in range(3) if k != ax]
     o = np.round(np.array(sides) * rng.uniform(0.3, 0.5, size=3) * 8) / 8      # dyadic: the 1 m screen is exactly 1 m
+    # 1 m (one patch) or 2 m by 1 m (the screen itself is subdivided into patches)
+    e1 = float(rng.choice([1.0, 2.0]))
+    if o[a1] + e1 > sides[a1] - 0.25:
+        e1 = 1.0
     q = np.array([o, o, o, o], dtype=float)
-    q[1, a1] += 1.0
-    q[2, a1] += 1.0
+    q[1, a1] += e1
+    q[2, a1] += e1
     q[2, a2] += 1.0
     q[3, a2] += 1.0
+    ctx.count('screen_extent_%g' % e1)
     nn = np.zeros(3)
     nn[ax] = float(rng.choice([1, -1]))
     up = np.zeros(3)
